@@ -16,8 +16,8 @@ STATE_ATTRS = {"_protocol_version", "_protocol"}
 def run(ctx: Ctx, chk) -> None:
     chk.assume("A1", "A2", "A3", "A4", "A5", "A6", "A7")
     eea_listen(ctx, chk, prune=True)
-    hier(ctx, chk)
-    state1(ctx, chk)
+    chk.run_rule(hier, ctx)
+    chk.run_rule(state1, ctx)
 
 
 def thorough(ctx: Ctx, chk) -> None:
